@@ -80,7 +80,7 @@ def _transfer_branch(op: str, prev_digest: str, blocks: dict) -> str:
     """Which branch of backup_database / restore_backup an op exercised (for the evidence histogram only)."""
     parts = prev_digest.split()
     srv = parts[0][4:].split(",")
-    bk = parts[1][3:].split(",")
+    bk = parts[1][3:].split(",")[:3]
     s_on = srv[0] == "ON" and srv[1] == "RUNNING"
     bk_ok = bk[0] == "ON" and bk[1] == "RUNNING"
     if not s_on:
